@@ -73,28 +73,30 @@ Lemma has_key_fold_sync : forall src days acc t, has_key (tombs (fst acc)) t ->
 Proof.
   induction days as [|d rest IH]; intros acc t H; cbn [fold_left]; [exact H|].
   apply IH. destruct acc as [dst cnt]. unfold sync_day. cbn [fst tombs].
-  rewrite tombs_fold_apply. apply has_key_fold_put. exact H.
+  rewrite tombs_fold_apply. apply has_key_fold_put.
+  rewrite (proj2 (fold_apply_etomb_fields _ dst)). exact H.
 Qed.
 
 Theorem tombstones_monotone : forall S o p t,
   has_key (tombs (get p S)) t -> has_key (tombs (get p (fst (fst (step S o))))) t.
 Proof.
-  intros S o p t H. destruct o as [q x tt sg|q x tt sg|q x tt|d s days]; cbn [step].
-  - cbn [fst]. rewrite get_set. destruct (N.eqb p q && Nat.ltb (N.to_nat q) (length S))%bool eqn:E; [|exact H].
-    apply Bool.andb_true_iff in E. destruct E as [E _]. apply N.eqb_eq in E. subst q. exact H.
-  - destruct (find_node x (nodes (get q S))); cbn [fst]; [|exact H].
-    rewrite get_set. destruct (N.eqb p q && Nat.ltb (N.to_nat q) (length S))%bool eqn:E; [|exact H].
-    apply Bool.andb_true_iff in E. destruct E as [E _]. apply N.eqb_eq in E. subst q. exact H.
-  - destruct (find_node x (nodes (get q S))); cbn [fst]; [|exact H].
-    rewrite get_set. destruct (N.eqb p q && Nat.ltb (N.to_nat q) (length S))%bool eqn:E; [|exact H].
-    apply Bool.andb_true_iff in E. destruct E as [E _]. apply N.eqb_eq in E. subst q.
+  intros S o p t H.
+  assert (K : forall q r, (q = p -> has_key (tombs r) t) -> has_key (tombs (get p (set q r S))) t).
+  { intros q r Hr. rewrite get_set. destruct (N.eqb p q && Nat.ltb (N.to_nat q) (length S))%bool eqn:E; [|exact H].
+    apply Bool.andb_true_iff in E. destruct E as [E _]. apply N.eqb_eq in E. apply Hr. congruence. }
+  destruct o as [q x tt sg|q x tt sg|q x tt|q x y tt sg|q x y tt sg|d s days]; cbn [step].
+  - cbn [fst]. apply K. intros ->. exact H.
+  - destruct (find_node x (nodes (get q S))); cbn [fst]; [|exact H]. apply K. intros ->. exact H.
+  - destruct (find_node x (nodes (get q S))); cbn [fst]; [|exact H]. apply K. intros ->.
     cbn [tombs]. apply has_key_tomb_put. exact H.
+  - destruct (find_node x (nodes (get q S))); [|exact H]. destruct (find_node y (nodes (get q S))); [|exact H].
+    destruct (find_edge x y (edges (get q S))); cbn [fst]; [exact H|]. apply K. intros ->. exact H.
+  - destruct (find_node x (nodes (get q S))); [|exact H].
+    destruct (find_edge x y (edges (get q S))); cbn [fst]; apply K; intros ->; exact H.
   - unfold pull_replica.
     pose proof (has_key_fold_sync (get s S) days (get d S, 0%N) t) as HK.
     destruct (fold_left (sync_day (get s S)) days (get d S, 0%N)) as [r cnt].
-    cbn [fst] in *. rewrite get_set.
-    destruct (N.eqb p d && Nat.ltb (N.to_nat d) (length S))%bool eqn:E; [|exact H].
-    apply Bool.andb_true_iff in E. destruct E as [E _]. apply N.eqb_eq in E. subst d. apply HK. exact H.
+    cbn [fst] in *. apply K. intros ->. apply HK. exact H.
 Qed.
 
 (* ---------- the former witnesses, now regression examples ---------- *)
